@@ -580,15 +580,34 @@ Proof.
 Qed.
 
 (* ---- the whole site ---------------------------------------------------------------------------- *)
-Lemma site_logged_exact c cs tbl (haserr : bool) ds path ops ret :
+Lemma header_filter_no_panic : forall ops w, no_panic (header_filter w ops) = no_panic ops.
+Proof.
+  induction ops as [|o ops IH]; intro w; [reflexivity|].
+  destruct o as [code|len fail|]; simpl.
+  - destruct w; simpl; apply IH.
+  - apply IH.
+  - reflexivity.
+Qed.
+
+Lemma inner_flat_no_panic tbl (haserr hdrw : bool) ops ret :
+  haserr = true \/ no_panic ops = true -> no_panic (fst (inner_flat tbl haserr hdrw ops ret)) = true.
+Proof.
+  intro H. unfold inner_flat.
+  assert (Hn : no_panic (fst (if haserr then errors_flat tbl ops ret else (ops, ret))) = true).
+  { destruct haserr; [apply errors_flat_no_panic|]. destruct H as [H|H]; [discriminate|exact H]. }
+  destruct (if haserr then errors_flat tbl ops ret else (ops, ret)) as [ops1 ret1]. simpl in *.
+  destruct hdrw; [rewrite header_filter_no_panic|]; exact Hn.
+Qed.
+
+Lemma site_logged_exact c cs tbl (haserr hdrw : bool) ds path ops ret :
   w_head c = false ->
-  let flat := if haserr then errors_flat tbl ops ret else (ops, ret) in
+  let flat := inner_flat tbl haserr hdrw ops ret in
   no_panic (fst flat) = true -> wb (fst flat ++ fallback tbl 1 (snd flat)) = true ->
-  let '(st, sz, lines) := site_serve c cs tbl haserr ds path ops ret return Prop in
+  let '(st, sz, lines) := site_serve c cs tbl haserr hdrw ds path ops ret return Prop in
   forall l, In l lines -> snd (fst l) = st /\ snd l = sz.
 Proof.
   intros Hh. cbv zeta. unfold site_serve.
-  destruct (if haserr then errors_flat tbl ops ret else (ops, ret)) as [ops1 ret1]. cbn [fst snd].
+  destruct (inner_flat tbl haserr hdrw ops ret) as [ops1 ret1]. cbn [fst snd].
   intros Hn Hw.
   pose proof (logged_exact c cs tbl 1 (parse_logs ds 0 [] []) path ops1 ret1 Hh Hn Hw) as H.
   destruct (find (fun r => path_matches cs path (ru_scope r)) (parse_logs ds 0 [] [])) as [r|] eqn:Hf.
@@ -602,24 +621,57 @@ Proof.
     destruct p; [|destruct (400 <=? r')%Z]; intros l [].
 Qed.
 
-Lemma site_lines c cs tbl (haserr : bool) ds path ops ret :
-  let flat := if haserr then errors_flat tbl ops ret else (ops, ret) in
-  snd (site_serve c cs tbl haserr ds path ops ret) =
+Lemma site_lines c cs tbl (haserr hdrw : bool) ds path ops ret :
+  let flat := inner_flat tbl haserr hdrw ops ret in
+  snd (site_serve c cs tbl haserr hdrw ds path ops ret) =
   snd (log_serve c cs tbl 1 (parse_logs ds 0 [] []) path (fst flat) (snd flat) uw0).
 Proof.
   cbv zeta. unfold site_serve.
-  destruct (if haserr then errors_flat tbl ops ret else (ops, ret)) as [ops1 ret1]. cbn [fst snd].
+  destruct (inner_flat tbl haserr hdrw ops ret) as [ops1 ret1]. cbn [fst snd].
   destruct (log_serve c cs tbl 1 (parse_logs ds 0 [] []) path ops1 ret1 uw0) as [[[u r] p] lines].
   reflexivity.
 Qed.
 
-Lemma site_one_line_per_log_partial c cs tbl (haserr : bool) sc ds path ops ret :
+Lemma site_one_line_per_log_partial c cs tbl (haserr hdrw : bool) sc ds path ops ret :
   uniform_scope sc ds -> exc_only_last ds -> (haserr = true \/ no_panic ops = true) ->
-  counts_ok cs ds 0 path (snd (site_serve c cs tbl haserr ds path ops ret)) = true.
+  counts_ok cs ds 0 path (snd (site_serve c cs tbl haserr hdrw ds path ops ret)) = true.
 Proof.
   intros Hu He Hp. rewrite site_lines. cbv zeta.
   apply one_line_per_log_partial with (sc := sc); auto.
-  destruct haserr.
-  - apply errors_flat_no_panic.
-  - destruct Hp as [Hp|Hp]; [discriminate|exact Hp].
+  apply inner_flat_no_panic. exact Hp.
+Qed.
+
+(* with a header directive in front of the handler the recorder sees at most one WriteHeader,
+   and only before the first Write: the writer contract holds for EVERY handler script *)
+Lemma header_filter_no_wh : forall ops, no_wh (header_filter true ops) = true.
+Proof.
+  induction ops as [|o ops IH]; [reflexivity|]. destruct o; simpl; exact IH.
+Qed.
+
+Lemma header_filter_wb ops : no_panic ops = true -> wb (header_filter false ops) = true.
+Proof.
+  destruct ops as [|o ops]; intro H; [reflexivity|].
+  destruct o as [code|len fail|]; simpl in *; try discriminate; apply header_filter_no_wh.
+Qed.
+
+Lemma errors_flat_fallback_nil tbl ops ret : fallback tbl 1 (snd (errors_flat tbl ops ret)) = [].
+Proof.
+  unfold errors_flat. destruct (upto_panic ops) as [a p].
+  destruct p; [reflexivity|]. destruct (400 <=? ret)%Z eqn:E; [reflexivity|].
+  simpl. unfold fallback. rewrite E. reflexivity.
+Qed.
+
+Lemma site_exact_with_errors_and_header c cs tbl ds path ops ret :
+  w_head c = false ->
+  let '(st, sz, lines) := site_serve c cs tbl true true ds path ops ret return Prop in
+  forall l, In l lines -> snd (fst l) = st /\ snd l = sz.
+Proof.
+  intro Hh.
+  pose proof (site_logged_exact c cs tbl true true ds path ops ret Hh) as H. cbv zeta in H.
+  apply H.
+  - apply inner_flat_no_panic. now left.
+  - unfold inner_flat. pose proof (errors_flat_no_panic tbl ops ret) as Hn.
+    pose proof (errors_flat_fallback_nil tbl ops ret) as Hf.
+    destruct (errors_flat tbl ops ret) as [ops1 ret1]. simpl in *. rewrite Hf, app_nil_r.
+    apply header_filter_wb. exact Hn.
 Qed.
